@@ -65,6 +65,8 @@ class Engine:
         length = T.weighted([(1, 0), (2, None), (1, 1)])
         if length is None:
             length = T.between(0, 60)
+        if T.draw(60) == 0:
+            length = T.between(2000, 70000)   # occasionally a long buffer
         nops = T.between(1, 40 if tier == "thorough" else 22)
         ops = [["open"]] if T.draw(8) else []
         for _ in range(nops):
@@ -98,8 +100,12 @@ class Engine:
         sw, ch, sr = sc["fmt"]
         bps = sw * ch
         L = sc["length"]
-        data = b"".join(C.make_window(i, (i % 4) != 3, 1, sw, ch)
-                        for i in range(L))
+        if L > 1000:
+            unit_ = bytes(range(1, 252))
+            data = (unit_ * (L * bps // len(unit_) + 1))[:L * bps]
+        else:
+            data = b"".join(C.make_window(i, (i % 4) != 3, 1, sw, ch)
+                            for i in range(L))
         out = {"violation": None, "error": None, "steps": 0, "simtime": 0.0,
                "faults": {}, "probes": {}, "nontrivial": False}
         trace = []
@@ -259,9 +265,9 @@ class Engine:
                     elif name == "pos":
                         mode, x = op[1], op[2]
                         if mode == "in":
-                            p = x % (L + 1)
+                            p = (x * 1009) % (L + 1)
                         elif mode == "neg":
-                            p = -(x % (L + 1))
+                            p = -((x * 1009) % (L + 1))
                         elif mode == "end":
                             p = L
                         elif mode == "over":
@@ -375,7 +381,8 @@ class Engine:
                 + fl["rewind"] + fl["reopen"]) >= 1
             out["sig"] = mix(sw, ch, sr, L, repr(sc["ops"]))
             out["shape"] = "len%s" % ("0" if L == 0 else
-                                      "1-9" if L < 10 else "10+")
+                                      "1-9" if L < 10 else
+                                      "10+" if L <= 1000 else "2000+")
             out["summary"] = {"ops": len(sc["ops"])}
             if want_trace:
                 out["trace"] = trace
